@@ -58,6 +58,7 @@ func mainReplay(args []string) int {
 	stepMS := fs.Int("step-ms", 5000, "watchdog for every wait on a hook event")
 	hangMS := fs.Int("hang-ms", 3000, "how long a Submit call may take to return once the manager is quiescent")
 	final := fs.Bool("final-shutdown", true, "end every script with a provider shutdown")
+	budget := fs.Int("budget", 3, "full-length timeouts this process affords before it shortens its waits")
 	if err := fs.Parse(args); err != nil || *scripts == "" || *out == "" {
 		return 2
 	}
@@ -66,6 +67,7 @@ func mainReplay(args []string) int {
 		fmt.Fprintln(os.Stderr, "fixtures:", err)
 		return 2
 	}
+	timeoutBudget, hangBudget = *budget, *budget
 	w, err := vcommon.NewWriter(*out)
 	if err != nil {
 		fmt.Fprintln(os.Stderr, err)
@@ -159,6 +161,10 @@ func replayScript(fx *fixtures, sc Script, w *vcommon.Writer, stepTO, hangTO tim
 			break
 		}
 	}
-	torn := e.close(2 * time.Second)
+	wait := 2 * time.Second
+	if !ok {
+		wait = 300 * time.Millisecond
+	}
+	torn := e.close(wait)
 	return n, ok, torn
 }
